@@ -29,6 +29,7 @@ def instance_keeps_order(ctx):
     appended at the back.  (Actions run in configured order until one stops the chain, and the first firing detector group names the
     action context: an instance that reorders either behaves differently from the ruleset that was configured - shared by C02 and C11.)"""
     P = ctx.prog
+    detector_group_copy_keeps_every_detector(ctx)
     rg = ctx.fn1("Oomd::Engine::Ruleset::registerRunnableRulesetForCgroupPath")
     ctx.use(rg)
     for local, field in (("action_group", "this->action_group_"), ("detector_groups", "this->detector_groups_")):
@@ -66,6 +67,40 @@ def instance_keeps_order(ctx):
         ctx.check(ok, "instance-keeps-order:" + local, "loop-shape + per-iteration exactly-once", rg.loc(pushes[0]),
                   "the instance's %s are appended one per element of %s, in that order" % (local, field),
                   "the instance's %s do not keep the configured order: %s" % (local, why))
+
+
+def detector_group_copy_keeps_every_detector(ctx):
+    """Part of instance_keeps_order (C02, C11): the copy of a detector group that a per-cgroup instance gets holds one detector per
+    detector of the template - every iteration of the copy constructor's walk appends exactly one.  A group that lost a detector (a copy
+    that is skipped) is a weaker conjunction; a group that lost all of them fires on every tick (check() starts from 'all continue')."""
+    P = ctx.prog
+    cps = [f for f in P.fns.values() if f.pq == "Oomd::Engine::DetectorGroup::DetectorGroup" and f.kind == "ctor" and len(f.params) == 1
+           and "DetectorGroup" in (f.params[0].get("type") or "")]
+    if len(cps) != 1:
+        ctx.broken("detector-group-copy-keeps-every-detector", "anchor", "-", "DetectorGroup's copy constructor not found (%d candidates)" % len(cps))
+        return
+    f = ctx.use(cps[0])
+    pn = f.params[0]["name"]
+    pushes = [i for i in f.calls("emplace_back", "push_back") if f.text(f.nodes[i].get("recv", -1)).replace("this->", "") == "detectors_"]
+    lps = [l for l in loops(f) if (loop_walk_any(f, l) or {}).get("container", "").replace("param:", "") in (pn + ".detectors_",)]
+    if len(lps) != 1 or not pushes:
+        alg = [i for i in f.calls() if (f.nodes[i].get("callee") or "").split("(")[0].endswith(("std::transform",)) and len(f.nodes[i].get("args", [])) >= 3]
+        if alg and not pushes:
+            ctx.ok("detector-group-copy-keeps-every-detector", "loop-shape + per-iteration exactly-once", f.loc(alg[0]), "copied by std::transform: one detector per detector")
+            return
+        ctx.broken("detector-group-copy-keeps-every-detector", "anchor", f.loc(), "expected one walk over %s.detectors_ appending to detectors_" % pn)
+        return
+    L = lps[0]
+    fl = iter_flow(ctx, f, L, {i: [("set", "pushed")] for i in pushes})
+    ok = True
+    for b in back_sources(L):
+        parts = fl.OUT.get(b)
+        if parts is not None and not all("pushed" in st.must for st in parts.values()):
+            ok = False
+    ctx.check(ok, "detector-group-copy-keeps-every-detector", "loop-shape + per-iteration exactly-once", f.loc(pushes[0]),
+              "every detector of the template is copied into the instance's group",
+              "an iteration of DetectorGroup's copy constructor can complete without appending its detector: the per-cgroup instance's group is a "
+              "weaker conjunction than configured, and a group left without any detector fires on every tick (check() starts from 'all continue')")
 
 
 def instance_action_args(ctx):
@@ -134,8 +169,19 @@ def instances_kept_only_if_ran(ctx):
     for i in ro.calls("insert", "emplace"):
         if inbody(i) and "recv" in ro.nodes[i]:
             rn = ro.nodes[ro.strip(ro.nodes[i]["recv"])]
-            if rn.get("k") == "ref" and rn.get("dk") == "local" and "unordered_set" in (rn.get("type") or "") + "unordered_set":
+            if rn.get("k") == "ref" and rn.get("dk") in ("local", "static_local"):
                 marks[i] = (ro, i)
+                # the set of cgroups seen on THIS tick by THIS ruleset: an automatic local (or emptied before the walk).  A static /
+                # thread_local set is initialised once and shared by every ruleset and every tick: nothing is ever 'not visited' again
+                if rn.get("dk") == "static_local":
+                    clears = [c_ for c_ in ro.calls("clear") if ro.text(ro.nodes[c_].get("recv", -1)) == ro.text(ro.nodes[i]["recv"]) and not inbody(c_)]
+                    ctx.check(bool(clears), "visited-set-is-per-call", "storage_class", ro.loc(i),
+                              "the visited set is emptied before every walk",
+                              "the set of cgroups visited this tick ('%s') has static storage and is never emptied: its initialiser runs once, so it "
+                              "accumulates the cgroups of every ruleset and every tick - stale instances are never dropped (a re-created cgroup resumes "
+                              "the old pause / suspended chain) and rulesets influence one another" % ro.text(ro.nodes[i]["recv"]))
+                else:
+                    ctx.ok("visited-set-is-per-call", "storage_class", ro.loc(i), "the visited set is an automatic local of runOnce")
     for e_ in ctx.cg.out.get(ro.usr, ()):
         if e_.kind == "scope-exit" and e_.dst in P.fns and isinstance(e_.node, tuple) and e_.node[1] in L["body"]:
             cl_ = P.fns[e_.dst]
@@ -161,6 +207,49 @@ def instances_kept_only_if_ran(ctx):
                   "a cgroup is marked visited only in an iteration that ran its instance",
                   "a cgroup can be marked visited in an iteration that does not run its instance (attribute gone, open failed, duplicate): the "
                   "instance survives the sweep without running - a suspended chain is neither resumed nor ended and comes back with stale state")
+
+
+def instance_skipped_only_for_documented_reasons(ctx):
+    """Shared by C05 and C11: in Ruleset::runOnce's walk a matching cgroup is passed over (its instance neither created nor run, hence
+    dropped by the sweep together with its post-action pause, suspended chain and detector windows) only for the documented reasons:
+    the directory cannot be opened, the xattr filter's attribute is absent or unreadable, the instance cannot be created.  Any other
+    `continue` makes a cgroup that still matches lose its state - and start afresh (acting at once) when the condition passes."""
+    from ..cfg import CondNorm
+    P = ctx.prog
+    ro = ctx.fn1("Oomd::Engine::Ruleset::runOnce")
+    ls = [l for l in loops(ro) if l["stmt"] is not None and ro.nodes[l["stmt"]]["k"] == "rangefor"
+          and "resolveWildcard()" in ro.text(ro.nodes[l["stmt"]]["range"])]
+    if len(ls) != 1:
+        ctx.broken("instance-skipped-only-for-documented-reasons", "anchor", ro.loc(), "expected one range-for over resolveWildcard() in Ruleset::runOnce")
+        return
+    L = ls[0]
+    opened = locals_receiving(ro, r"DirFd::open\(")
+    probes = locals_receiving(ro, r"hasxattrAt\(")
+    cn = CondNorm(ro, P)
+    conts = [i for i, n in enumerate(ro.nodes) if n["k"] == "continue" and L["stmt"] in list(ro.ancestors(i))
+             and not any(ro.nodes[a]["k"] in ("for", "while", "do", "rangefor") and a != L["stmt"] for a in list(ro.ancestors(i))[:list(ro.ancestors(i)).index(L["stmt"])])]
+    ctx.counters["instance_skip_sites"] = len(conts)
+    for i in conts:
+        facts = []
+        for a in ro.ancestors(i):
+            if a == L["stmt"]:
+                break
+            an = ro.nodes[a]
+            if an["k"] == "if" and "c" in an:
+                in_then = an.get("then") is not None and (an["then"] == i or i in set(ro.walk(an["then"])))
+                facts += cn.decompose(an["c"], in_then)
+        ok = False
+        for k, p in facts:
+            if not isinstance(k, str) or p is not False:
+                continue
+            base = re.sub(r"^\*|\.has_value\(\)$|\.value\(\)$|\.operator bool\(\)$", "", k)
+            if base in opened or base in probes or k.startswith("this->registerRunnableRulesetForCgroupPath("):
+                ok = True
+        ctx.check(ok, "instance-skipped-only-for-documented-reasons", "guarded_by (lexical)", ro.loc(i),
+                  "a matching cgroup is passed over only when it cannot be opened, fails the xattr filter or its instance cannot be created",
+                  "a cgroup that still matches the ruleset's pattern is passed over under %s: its instance is dropped by the sweep together with its "
+                  "post-action pause, suspended chain and detector windows, and a fresh one acts at once when the condition passes"
+                  % [(k, p) for k, p in facts][:4])
 
 
 def run(ctx):
@@ -241,6 +330,7 @@ def run(ctx):
         ctx.check(fi.must(i, "ran") and hoist_text(ro, ro.nodes[i]["args"][0], P) == KEY, "visited-after-run-same-key", "order", ro.loc(i),
                   "a cgroup is marked visited (by the same key) after its instance ran", "visited marking does not follow the run with the same key")
     instances_kept_only_if_ran(ctx)
+    instance_skipped_only_for_documented_reasons(ctx)
     for i in impl:
         # the visit marking follows on every path to the end of the iteration
         fv = iter_flow(ctx, ro, L, {**{v: [("set", "visited")] for v in vis}, **{k_: [("set", "visited")] for k_ in guard_vis}, **{i: [("set", "ran")]}})
@@ -432,7 +522,8 @@ def run(ctx):
             for i in f.calls("emplace_back", "push_back"):
                 t = Xd(f.nodes[i]["args"][0])
                 ctx.count("dg_copy_pushes")
-                ctx.check(t.startswith("Oomd::getPluginRegistry().create("), "detector-group-copy-creates-detectors", "provenance", f.loc(i),
+                t_core = re.sub(r"^(std::move\(|std::unique_ptr(<[^()]*>)?\()+", "", t)
+                ctx.check(t_core.startswith("Oomd::getPluginRegistry().create("), "detector-group-copy-creates-detectors", "provenance", f.loc(i),
                           "copied detector groups get newly created detectors", "copied group receives " + t[:100])
             for i in f.calls("BasePlugin::init", "BasePlugin::initPlugin"):
                 a = [Xd(x) for x in f.nodes[i]["args"]]
